@@ -246,6 +246,44 @@ func genC12(e *emitter, tier string) {
 	e.emit(decodeCase("bad-dims", &TPJ{DataType: 1, Dims: []int64{2, -2}, Float: []uint32{1, 2, 3, 4}}))
 	e.emit(decodeCase("bad-dims", &TPJ{DataType: 7, Dims: []int64{0}, Int64: []int64{}}))
 	e.emit(decodeCase("bad-dims", &TPJ{DataType: 7, Dims: []int64{0, 3}, HasRaw: true}))
+	// signed dims sweep: every tuple of rank 1..3 over small signed extents, with a payload of |product|
+	// elements (a product of two negative dims is positive), typed and raw, two element types
+	ext := []int64{-3, -2, -1, 0, 1, 2, 3}
+	var tuples [][]int64
+	for _, a := range ext {
+		tuples = append(tuples, []int64{a})
+		for _, b := range ext {
+			tuples = append(tuples, []int64{a, b})
+			for _, c := range ext {
+				if tier == "thorough" || (a < 0 || b < 0 || c < 0) && (a+2*b+3*c)%3 == 0 {
+					tuples = append(tuples, []int64{a, b, c})
+				}
+			}
+		}
+	}
+	for _, d := range tuples {
+		n := int64(1)
+		for _, x := range d {
+			n *= x
+		}
+		if n < 0 {
+			n = -n
+		}
+		fl := make([]uint32, n)
+		i6 := make([]int64, n)
+		rawF := make([]int, 4*n)
+		rawI := make([]int, 8*n)
+		for i := range fl {
+			fl[i] = f32bits(float32(i + 1))
+			i6[i] = int64(i + 1)
+			rawF[4*i+3] = 0x40
+			rawI[8*i] = i + 1
+		}
+		e.emit(decodeCase("signed-dims", &TPJ{DataType: 1, Dims: d, Float: fl}))
+		e.emit(decodeCase("signed-dims", &TPJ{DataType: 7, Dims: d, Int64: i6}))
+		e.emit(decodeCase("signed-dims", &TPJ{DataType: 1, Dims: d, Raw: rawF, HasRaw: true}))
+		e.emit(decodeCase("signed-dims", &TPJ{DataType: 7, Dims: d, Raw: rawI, HasRaw: true}))
+	}
 }
 
 func f32bits(f float32) uint32 { return math.Float32bits(f) }
